@@ -159,30 +159,27 @@ Theorem C01_leaf_stable : Forall (fun e => leaf_stable (snd e)) leaf_table /\ Fo
 Proof. exact (conj leaf_table_stable pre_table_stable). Qed.
 Print Assumptions C01_leaf_stable.
 
-(* C01_fixpoint: for EVERY slice the model of DecodeBoxSR accepts completely with an exact tree t -- no hypothesis on
-   the reserved bytes --, the Go encoders succeed with some enc of the input's length (= Size()); decoding enc
-   succeeds and yields norm_box t, i.e. t up to the captured reserved bytes (their erasures are equal); encoding that
-   once more gives enc again.  enc differs from the input at most in the captured bytes (C01_tree). *)
+(* C01_fixpoint: for EVERY slice the model of DecodeBoxSR accepts completely with an exact tree t -- no hypothesis on the
+   reserved bytes --: the Go encoders succeed on both API paths (raw_box false = the bytes written; encode_w = Box.Encode with its
+   per-box FixedSliceWriter capacities and the 2^32 limit; encode_sw = Box.EncodeSW into one writer of Size() bytes) with the
+   same bytes enc, of the input's length = Size(); decoding enc succeeds and yields norm_box t, i.e. t up to the captured
+   reserved bytes (their erasures are equal); encoding that once more gives enc again on all three.  enc differs from the
+   input at most in the captured bytes (C01_tree). *)
 Theorem C01_fixpoint : forall bs t, bytes_ok bs = true -> decode bs = Ok (t, []) -> exact_box t = true ->
-  exists enc, raw_box false t = Ok enc /\ lenN enc = lenN bs /\ lenN enc = size_box t /\
-    decode enc = Ok (norm_box t, []) /\ erase_rsv (norm_box t) = erase_rsv t /\ raw_box false (norm_box t) = Ok enc.
-Proof. exact fixpoint. Qed.
+  exists enc, raw_box false t = Ok enc /\ encode_w t = Ok enc /\ encode_sw t = Ok enc /\
+    lenN enc = lenN bs /\ lenN enc = size_box t /\
+    decode enc = Ok (norm_box t, []) /\ erase_rsv (norm_box t) = erase_rsv t /\
+    raw_box false (norm_box t) = Ok enc /\ encode_w (norm_box t) = Ok enc /\ encode_sw (norm_box t) = Ok enc.
+Proof. exact fixpoint_full. Qed.
 Print Assumptions C01_fixpoint.
 
-(* the same on the two encode paths of the API: for an exact decoded tree Box.Encode (per-box FixedSliceWriter capacities,
-   sizes below 2^32) and Box.EncodeSW (one writer of Size() bytes) both SUCCEED with the same bytes, and they do so again on
-   the re-decoded tree: nothing in the model stands between raw_box and what the Go caller gets *)
-Theorem C01_fixpoint_api : forall bs t, bytes_ok bs = true -> decode bs = Ok (t, []) -> exact_box t = true ->
-  exists enc, encode_w t = Ok enc /\ encode_sw t = Ok enc /\ lenN enc = lenN bs /\
-    decode enc = Ok (norm_box t, []) /\ encode_w (norm_box t) = Ok enc /\ encode_sw (norm_box t) = Ok enc.
-Proof. exact fixpoint_api. Qed.
-Print Assumptions C01_fixpoint_api.
-
-(* the same for a file in box-tree mode: File.Encode's bytes decode to the normalised boxes and encode to themselves *)
+(* the same for a file, box-tree mode and progressive files alike (File.Encode writes f.Children in decode order in both):
+   encode_seq_w = `for _, b := range f.Children { b.Encode(w) }` *)
 Theorem C01_file_boxtree : forall bs ts, bytes_ok bs = true -> decode_file bs = Ok ts -> forallb exact_box ts = true ->
-  exists enc, encode_seq false ts = Ok enc /\ lenN enc = lenN bs /\ decode_file enc = Ok (map norm_box ts) /\
-    encode_seq false (map norm_box ts) = Ok enc.
-Proof. exact file_fixpoint. Qed.
+  exists enc, encode_seq false ts = Ok enc /\ encode_seq_w ts = Ok enc /\ lenN enc = lenN bs /\
+    decode_file enc = Ok (map norm_box ts) /\ encode_seq false (map norm_box ts) = Ok enc /\
+    encode_seq_w (map norm_box ts) = Ok enc.
+Proof. exact file_fixpoint_full. Qed.
 Print Assumptions C01_file_boxtree.
 
 (* the special case proved first (inputs whose reserved bytes already have the encoder's values: enc = input) *)
